@@ -451,8 +451,8 @@ def scale_groups():
                   one(w12, C("call", A("w12"), *[V(i) for i in range(11)]), 11)]
     mem = {"member/2": [clause(C("member", V(0), lst([V(0)], V(900)))), clause(C("member", V(0), lst([V(900)], V(1))), call(C("member", V(0), V(1))))],
            "down/1": [clause(C("down", A("z"))), clause(C("down", C("s", V(0))), call(C("down", V(0))))],
-           "fa/1": [clause(C("fa", V(0)), call(C("findall", V(1), C("member", V(1), lst([I(i) for i in range(108)])), V(0))))],
-           "fd/1": [clause(C("fd", V(0)), call(C("findall", A("y"), C("down", _s(112)), V(0))))]}
+           "fa/1": [clause(C("fa", V(0)), call(C("findall", V(1), C("member", V(1), lst([I(i) for i in range(60)])), V(0))))],
+           "fd/1": [clause(C("fd", V(0)), call(C("findall", A("y"), C("down", _s(60)), V(0))))]}
     L120 = lst([I(i) for i in range(110)])
     G["findall"] = [one(mem, C("findall", V(0), C("member", V(0), L120), V(1)), 2), one(mem, C("fa", V(0)), 1), one(mem, C("fd", V(0)), 1),
                     one(mem, C("findall", V(0), C(",", C("member", V(0), L120), C("member", V(0), lst([I(109), I(3)]))), V(1)), 2)]
